@@ -9,7 +9,7 @@ import z3
 
 from contracts import strspec as sp
 from contracts.C01_vc import EOS, PAD, col, model_inputs, sym_pair
-from vf.pyvc import api, ctensor as ct
+from vf.pyvc import api, ctensor as ct, interp as ip
 from vf.pyvc.api import VC
 
 M = "pydrobert.torch._string"
@@ -170,3 +170,108 @@ def replay_er(m, R, H, N, eos_set, include_eos, batch_first, norm, variant):
 
 def vcs(ctx):
     return [er_vc(*c) for c in configs(ctx.quick)]
+
+
+# ---- minimum_error_rate_loss against error_rate's contract (modular) ------------------------------------------------------------
+def mer_vc(N, Mn, R, H, ref3d, batch_first, sub_avg, reduction, norm):
+    """The callee `error_rate` is replaced by its contract: it returns one symbolic rate per (element, sample) column and its
+    obligations record the arguments it received, so that a dropped option or a reference repeated along the wrong axis is a
+    refuted obligation. softmax has its assumed contract (non-negative weights summing to one, a function of the scores)."""
+    import pydrobert.torch._string as S
+
+    name = "N%dM%dR%dH%d[ref%s,bf=%s,sub_avg=%s,%s,norm=%s]" % (N, Mn, R, H, "3d" if ref3d else "2d", batch_first, sub_avg, reduction, norm)
+    INC = z3.Bool("include_eos")
+
+    def thunk(I):
+        lp = ct.CT.symbolic("lp", (N, Mn), "float")
+        ref = ct.CT.symbolic("ref", (N, Mn, R) if ref3d else (N, R), "long")
+        hyp = ct.CT.symbolic("hyp", (N, Mn, H), "long")
+        er = ct.CT.symbolic("er", (N * Mn,), "float")
+        I.ex.ghost.update(lp=lp, ref=ref, hyp=hyp, er=er, calls=[])
+
+        def er_contract(I2, a, k):
+            I2.ex.ghost["calls"].append((a, dict(k)))
+            return er
+
+        I.contracts["pydrobert.torch._string.error_rate"] = er_contract
+        to_tm = lambda t: ct.CT(ct.np.moveaxis(t.a, -1, 0).copy(), t.dtype)  # (N,M,T) -> (T,N,M)
+        a_ref, a_hyp = (ref, hyp) if batch_first else (to_tm(ref), to_tm(hyp))
+        return I.call(S.minimum_error_rate_loss, [lp, a_ref, a_hyp], dict(eos=EOS, include_eos=INC, sub_avg=sub_avg, batch_first=batch_first, norm=norm,
+                                                                          ins_cost=INS, del_cost=DEL, sub_cost=SUB, reduction=reduction, warn=False))
+
+    def post(p):
+        if not api.returns(p) or not isinstance(p.value, ct.CT):
+            return False
+        g = p.ghost
+        if len(g["calls"]) != 1:
+            return False
+        a, k = g["calls"][0]
+        goals = []
+        # -- what error_rate received
+        kw = dict(k)
+        names = ["ref", "hyp", "eos", "include_eos", "norm", "batch_first", "ins_cost", "del_cost", "sub_cost", "warn"]
+        for i, v in enumerate(a):
+            kw[names[i]] = v
+        same = lambda x, y: (x is y) if not (ct.is_z3(x) or ct.is_z3(y)) else ip.to_z3(x).eq(ip.to_z3(y))
+        goals.append(("callee.options", z3.BoolVal(bool(same(kw.get("eos"), EOS) and same(kw.get("include_eos"), INC) and kw.get("norm") is norm and kw.get("batch_first") is batch_first
+                                                        and same(kw.get("ins_cost"), INS) and same(kw.get("del_cost"), DEL) and same(kw.get("sub_cost"), SUB)))))
+        cref, chyp = kw.get("ref"), kw.get("hyp")
+        ok_layout = isinstance(cref, ct.CT) and isinstance(chyp, ct.CT) and cref.shape == ((N * Mn, R) if batch_first else (R, N * Mn)) and chyp.shape == ((N * Mn, H) if batch_first else (H, N * Mn))
+        if not ok_layout:
+            goals.append(("callee.layout", z3.BoolVal(False)))
+        else:
+            eqs = []
+            for n in range(N):
+                for m in range(Mn):
+                    c = n * Mn + m  # the column error_rate's result is later viewed at (n, m)
+                    for r in range(R):
+                        want = g["ref"].a[n, m, r] if ref3d else g["ref"].a[n, r]
+                        got = cref.a[c, r] if batch_first else cref.a[r, c]
+                        eqs.append(ip.to_z3(got) == want)
+                    for h in range(H):
+                        got = chyp.a[c, h] if batch_first else chyp.a[h, c]
+                        eqs.append(ip.to_z3(got) == g["hyp"].a[n, m, h])
+            goals.append(("callee.columns_pair_ref_n_with_sample_nm", z3.And(eqs) if eqs else z3.BoolVal(True)))
+        # -- the formula: loss[n,m] = softmax(lp[n])[m] * (er[n,m] - sub_avg * mean_m er[n,.])
+        w = ct.f_softmax(_FakeI(p), g["lp"], 1)  # same uninterpreted weights as in the run (functional contract)
+        terms = []
+        for n in range(N):
+            mean = z3.Sum([g["er"].a[n * Mn + m] for m in range(Mn)]) / Mn
+            for m in range(Mn):
+                e = g["er"].a[n * Mn + m] - (mean if sub_avg else 0)
+                terms.append(((n, m), ip.to_z3(w.a[n, m]) * e))
+        out = p.value
+        if reduction == "none":
+            goals.append(("formula.none", z3.And([ip.to_z3(out.a[n, m]) == t for (n, m), t in terms]) if out.shape == (N, Mn) else z3.BoolVal(False)))
+        else:
+            tot = z3.Sum([t for _, t in terms])
+            goals.append(("formula." + reduction, ip.to_z3(out.a[()]) == (tot / (N * Mn) if reduction == "mean" else tot) if out.shape == () else z3.BoolVal(False)))
+        return goals
+
+    return VC("C02.mer.formula_vc", name, M, "minimum_error_rate_loss", thunk, pre=[INS > 0, DEL > 0, SUB > 0], posts=[("softmax_weighted_error_rates", post)], inputs={},
+              assumptions=["error_rate replaced by its contract (one rate per column; C02.S.* decide the rates themselves)", "softmax contract of vf/pyvc/ctensor.py (weights a function of the scores)"])
+
+
+class _FakeI:
+    """minimal interpreter facade to re-apply the softmax contract in a postcondition (assumptions are already in the path condition)"""
+
+    def __init__(self, p):
+        class E:
+            def assume(s, c):
+                pass
+        self.ex = E()
+
+
+def mer_vcs(ctx):
+    out = []
+    for ref3d in (False, True):
+        for bf in (False, True):
+            for sub_avg in (False, True):
+                for red in ("mean", "sum", "none"):
+                    for norm in (True, False):
+                        if ctx.quick and (sub_avg != norm) and red != "none":
+                            continue
+                        out.append(mer_vc(2, 2, 2, 1, ref3d, bf, sub_avg, red, norm))
+    if not ctx.quick:
+        out += [mer_vc(1, 3, 1, 2, r3, bf, True, "mean", True) for r3 in (False, True) for bf in (False, True)]
+    return out
